@@ -229,6 +229,37 @@ def post_init(P, R):
     R.floor('C20.GRD.4', 1)
 
 
+def walk_starts(P, R):
+    """MPT.4: the list loader starts a walk from every module that has not been visited yet; the only
+    reason to pass over a module is that an earlier walk already reached it.  (Skipping modules that
+    others depend on would leave a cycle with no outside entry unwalked and undetected.)"""
+    ll = P.need_fn('module_load_list')
+    calls = [s for s in ll.calls('module_dfs')]
+    for s in calls:
+        # edges that jump to the next module without starting a walk
+        nxt = [t for t in ll.stores() if t.ev['k'] == 'store' and is_var(t.ev.get('lhs')) and is_field(t.ev.get('rhs') or {}, 'next') and t.bid in ll.reach([s.bid])]
+        if not nxt:
+            R.ob('C20.MPT.4', False, s, 'the walk loop does not step along the module registry', key='walk-loop')
+            continue
+        incb = nxt[0].bid
+        live = ll.reachable_blocks()
+        edges = []
+        for bid in live:
+            for e in ll.out[bid]:
+                if e.dst == incb and not ll.dominates(s.bid, bid) and bid != s.bid:
+                    if e.label == 'fall' and not ll.block_sites(bid):
+                        edges.extend(x for x in ll.inn[bid] if x.src in live)
+                    elif e.label in ('true', 'false'):
+                        edges.append(e)
+        for e in edges:
+            r = rules.edge_rel(e)
+            ok = bool(r) and is_field(r[0], 'visited') and r[1] == '!=' and const_of(r[2]) == 0
+            R.ob('C20.MPT.4', ok, P.relloc((ll.blocks[e.src].get('term') or {}).get('loc', '?')),
+                 'a module is passed over by the walk loop only because it was already visited (%s)' % e.describe(), key='walk-skip:%s' % ('visited' if ok else e.describe()))
+            R.obligations[-1]['function'] = ll.name
+    R.floor('C20.MPT.4', 1)
+
+
 def both_directions(P, R):
     dep = P.need_fn('module_depends')
     ap = [s for s in dep.calls('const_string_vector_append')]
@@ -284,6 +315,7 @@ def run(P, R, tier):
     ld = construct_once(P, R)
     failures(P, R, ld)
     post_init(P, R)
+    walk_starts(P, R)
     both_directions(P, R)
     unload(P, R)
     return EXPLANATION, ASSUMPTIONS
